@@ -43,6 +43,14 @@ CLAIMED = {
         "Trusted: Lean kernel + standard axioms, Mathlib's real analysis (logb, rpow); floating-point rounding not modelled (1e-9 comparison); level conditions evaluated by the harness.",
         "DESIGN.md §6 C02",
     ),
+    "C14": (
+        "Lean 4 theorems about a model of blocking_analysis.py and the GENERATED calculate_cartesian (re-translated from misc.py by T-arith on every run, instantiated at Q): "
+        "pre-filter count = size of the equi-join (sum of block products, NULL keys never join), reported blocks exact, post-filter count = number of blocked pairs, marginal counts = rows per "
+        "match_key with correct running totals, cartesian = number of admissible pairs for all three link types, n_largest_blocks sorted and maximal. "
+        "Tie: the three public functions vs the compiled model on generated tables/rules + translation validation of the generated function; brute-force oracle on the real output.",
+        "Trusted: Lean kernel + standard axioms; T-arith translator (validated against the Python function on 300 inputs per run); sqlglot's equi/filter split of a rule is an input.",
+        "DESIGN.md §6 C14",
+    ),
 }
 PENDING_REASON = "check not built yet (model/theorems/correspondence under construction per DESIGN.md §10b); not claimed until all three exist"
 
